@@ -6,6 +6,7 @@ package main
 // values escaping into variables (reported as "value reference").
 
 import (
+	"go/token"
 	"go/types"
 	"sort"
 	"strings"
@@ -177,6 +178,11 @@ func (c *Ctx) whoMayWrite(rule string, fv *types.Var, what string, allowed ...st
 	}
 	ws := c.P.fieldWrites(fv)
 	names := writerNames(ws, false)
+	var fns []*ssa.Function
+	for _, w := range ws {
+		fns = append(fns, declaredParent(w.Fn))
+	}
+	allowed = c.P.withOwnedHelpers(allowed, fns)
 	extra := subset(names, allowed)
 	c.Stat("field_writes", len(ws))
 	if len(extra) > 0 {
@@ -289,7 +295,7 @@ func reachAvoid(from ssa.Instruction, target, avoid func(ssa.Instruction) bool) 
 func reachAvoidFrom(b *ssa.BasicBlock, start int, target, avoid func(ssa.Instruction) bool, seen map[*ssa.BasicBlock]bool) ssa.Instruction {
 	for i := start; i < len(b.Instrs); i++ {
 		in := b.Instrs[i]
-		if avoid(in) {
+		if avoid(in) || helperAlways(in, avoid, 0) {
 			return nil
 		}
 		if target(in) {
@@ -342,7 +348,7 @@ func cfgSearch(fl *Flow, from ssa.Instruction, startBlock *ssa.BasicBlock, targe
 	rec = func(b *ssa.BasicBlock, start int) ssa.Instruction {
 		for i := start; i < len(b.Instrs); i++ {
 			in := b.Instrs[i]
-			if avoid != nil && avoid(in) {
+			if avoid != nil && (avoid(in) || helperAlways(in, avoid, 0)) {
 				return nil
 			}
 			if target(in) {
@@ -350,7 +356,7 @@ func cfgSearch(fl *Flow, from ssa.Instruction, startBlock *ssa.BasicBlock, targe
 			}
 		}
 		for _, s := range b.Succs {
-			if blocked != nil && blocked(fl.edgeFacts(b, s)) {
+			if blocked != nil && edgeBlocked(fl, b, s, blocked, 0) {
 				continue
 			}
 			if seen[s] {
@@ -381,4 +387,185 @@ func precedes(a, b ssa.Instruction) bool {
 		return false
 	}
 	return a.Block().Dominates(b.Block())
+}
+
+// helperAlways: in is a static call of a function of the caller's own package (a helper the
+// statements may have been extracted into) and every path through that helper passes an
+// instruction satisfying pred. A must-pass-through rule is then satisfied by the call.
+func helperAlways(in ssa.Instruction, pred func(ssa.Instruction) bool, depth int) bool {
+	ci, ok := in.(ssa.CallInstruction)
+	if !ok || depth > 2 {
+		return false
+	}
+	if _, isGo := in.(*ssa.Go); isGo {
+		return false
+	}
+	if _, isDefer := in.(*ssa.Defer); isDefer {
+		return false
+	}
+	cal := ci.Common().StaticCallee()
+	if cal == nil || cal.Blocks == nil || cal.Synthetic != "" || in.Parent() == nil || cal == in.Parent() || funcPkgPath(cal) != funcPkgPath(in.Parent()) {
+		return false
+	}
+	inner := func(x ssa.Instruction) bool { return pred(x) || helperAlways(x, pred, depth+1) }
+	return reachAvoidFromPlain(cal.Blocks[0], 0, isReturn, inner, map[*ssa.BasicBlock]bool{cal.Blocks[0]: true}) == nil
+}
+
+// reachAvoidFromPlain is reachAvoidFrom without helper expansion (used by helperAlways itself).
+func reachAvoidFromPlain(b *ssa.BasicBlock, start int, target, avoid func(ssa.Instruction) bool, seen map[*ssa.BasicBlock]bool) ssa.Instruction {
+	for i := start; i < len(b.Instrs); i++ {
+		in := b.Instrs[i]
+		if avoid(in) {
+			return nil
+		}
+		if target(in) {
+			return in
+		}
+	}
+	for _, s := range b.Succs {
+		if seen[s] {
+			continue
+		}
+		seen[s] = true
+		if r := reachAvoidFromPlain(s, 0, target, avoid, seen); r != nil {
+			return r
+		}
+	}
+	return nil
+}
+
+// edgeBlocked decides whether the CFG edge b -> s is closed for a path search: its own edge
+// facts satisfy blocked, or the edge is taken on a verdict of a boolean helper of the same
+// package and, inside the helper, every path that delivers this verdict crosses a blocked
+// edge (facts re-expressed in the caller's terms).
+func edgeBlocked(fl *Flow, b, s *ssa.BasicBlock, blocked func([]Fact) bool, depth int) bool {
+	if blocked(fl.edgeFacts(b, s)) {
+		return true
+	}
+	if depth > 2 || len(b.Instrs) == 0 {
+		return false
+	}
+	iff, ok := b.Instrs[len(b.Instrs)-1].(*ssa.If)
+	if !ok || len(b.Succs) != 2 || b.Succs[0] == b.Succs[1] {
+		return false
+	}
+	cond, truth := iff.Cond, s == b.Succs[0]
+	for {
+		u, ok := cond.(*ssa.UnOp)
+		if !ok || u.Op != token.NOT {
+			break
+		}
+		cond, truth = u.X, !truth
+	}
+	call, ok := cond.(*ssa.Call)
+	if !ok {
+		return false
+	}
+	cal := call.Call.StaticCallee()
+	if cal == nil || cal == fl.Fn || cal.Blocks == nil || cal.Synthetic != "" || funcPkgPath(cal) != funcPkgPath(fl.Fn) {
+		return false
+	}
+	res := cal.Signature.Results()
+	if res.Len() != 1 || !types.Identical(res.At(0).Type(), types.Typ[types.Bool]) {
+		return false
+	}
+	cfl := NewFlow(fl.P, cal)
+	args := make([]string, len(call.Call.Args))
+	for i, a := range call.Call.Args {
+		args[i] = fl.K.Key(a)
+	}
+	tag := "@~" + cal.Name() + ":b${1}i${2}"
+	subst := func(k string) string {
+		k = localIDRe.ReplaceAllString(k, tag)
+		return paramRe.ReplaceAllStringFunc(k, func(m string) string {
+			i := 0
+			for _, ch := range m[1:] {
+				i = i*10 + int(ch-'0')
+			}
+			if i < len(args) {
+				return args[i]
+			}
+			return m
+		})
+	}
+	inCaller := func(fs []Fact) bool {
+		out := make([]Fact, 0, len(fs))
+		for _, f := range fs {
+			g := Fact{f.Op, subst(f.L), ""}
+			if f.R != "" {
+				g.R = subst(f.R)
+			}
+			if (g.Op == "==" || g.Op == "!=") && g.L > g.R {
+				g.L, g.R = g.R, g.L
+			}
+			out = append(out, g)
+		}
+		return blocked(out)
+	}
+	// is there an open path in the helper to a return delivering `truth`?
+	seen := map[*ssa.BasicBlock]bool{cal.Blocks[0]: true}
+	var open func(x *ssa.BasicBlock) bool
+	open = func(x *ssa.BasicBlock) bool {
+		if r, ok := x.Instrs[len(x.Instrs)-1].(*ssa.Return); ok {
+			v := retValue(r, 0)
+			switch {
+			case isBoolConst(v, truth):
+				return true
+			case isBoolConst(v, !truth):
+				return false
+			default:
+				var fs []Fact
+				cfl.decompose(v, truth, &fs)
+				return !inCaller(fs)
+			}
+		}
+		for _, y := range x.Succs {
+			if seen[y] || edgeBlocked(cfl, x, y, inCaller, depth+1) {
+				continue
+			}
+			seen[y] = true
+			if open(y) {
+				return true
+			}
+		}
+		return false
+	}
+	return !open(cal.Blocks[0])
+}
+
+// withOwnedHelpers extends an allowed set of declared functions by their private helpers: an
+// unexported function (among cands) all of whose uses in the module are static calls made from
+// allowed functions (or from helpers already admitted). Moving a part of an allowed function
+// into such a helper leaves the set of ways to reach the guarded operation unchanged.
+func (p *Prog) withOwnedHelpers(allowed []string, cands []*ssa.Function) []string {
+	al := map[string]bool{}
+	for _, a := range allowed {
+		al[a] = true
+	}
+	out := append([]string{}, allowed...)
+	for changed := true; changed; {
+		changed = false
+		for _, fn := range cands {
+			nm := shortName(fn)
+			if fn == nil || al[nm] || fn.Object() == nil || fn.Object().Exported() {
+				continue
+			}
+			refs := p.refsTo(fn)
+			ok := len(refs) > 0
+			for _, r := range refs {
+				if r.Kind != "call" || !al[shortName(declaredParent(r.In))] {
+					ok = false
+				}
+				if _, isGo := r.Instr.(*ssa.Go); isGo {
+					ok = false
+				}
+			}
+			if ok {
+				al[nm] = true
+				out = append(out, nm)
+				changed = true
+			}
+		}
+	}
+	return out
 }
